@@ -22,6 +22,7 @@ EXTENDS Naturals, Sequences, FiniteSets, TLC
 Kinds == {"int", "intList", "tokens", "tokenLists", "model", "modelList", "modelUnion", "anyType", "wildcardList",
           "attributes", "primUnion", "compound", "enum", "nillableInt", "requiredInt", "attrInt", "wildcardOne", "qname",
           "enumTokens",             \* an enumeration of xs:list values (members 5 6 and 5 6 7)
+          "nillableModel",          \* a class that is itself nillable (Meta.nillable) with an attribute: nil AND an instance
           "modelAndWildcard"}       \* x is a typed complex child, NEXT TO a (non-mixed) wildcard field of the same class
 
 Shapes == {"absent", "empty", "ws", "int", "str", "enumStr", "ints", "twice", "nil", "nilText", "nilBad", "leaf", "leafTwice",
@@ -31,6 +32,7 @@ Shapes == {"absent", "empty", "ws", "int", "str", "enumStr", "ints", "twice", "n
            "mixedTokens",                           \* a token list with one unconvertible token: <x>1 a 3</x>
            "clarkBroken", "xsiClarkBroken", "clark",
            "leafThenText", "textLeafText",
+           "nilAttr",                               \* <x a="1" xsi:nil="true"/>
            "xsiHexBad", "xsiIntBad"}                  \* an xsi:type naming a built-in type, with text outside its lexical space           \* character data after / around a complex child (only mixed content can hold it) \* names in {uri}local notation, whole and cut short (text and xsi:type)
 
 Positions == {"root", "nested", "repeated"}
@@ -60,6 +62,8 @@ Canonical(k, s) ==
     [] k = "qname"        -> s \in {"absent", "str", "enumStr"}
     [] k = "modelAndWildcard" -> s \in {"absent", "empty", "leaf"}
     [] k = "enumTokens"   -> s \in {"absent", "ints"}
+    \* (an instance without content is written with xsi:nil and its attributes, and read back as an instance)
+    [] k = "nillableModel" -> s \in {"absent", "nil", "nilAttr", "leaf"}
 
 \* a shape that adds, next to canonical content `int`, something NO content model of the universe knows:
 \* an element <zz> beside x (sibling).  Kinds that absorb anything (wildcards) are exempt.
